@@ -45,6 +45,7 @@ def main():
         # the checks regenerated lean/Inkayaku/Gen from the patched tree: bring it back to the unchanged tree at once
         # (other work in the Lean project must not see the seeded constants)
         sh('cd %s/harness && cargo build --offline --bins && ./target/debug/dumpconsts ../lean/Inkayaku/Gen' % VERIF)
+        sh('%s/translator/target/debug/rs2lean /repo %s/lean/Inkayaku/Gen/Rs' % (VERIF, VERIF))
         sh('python3 %s/tools/gen_c04.py %s/lean; python3 %s/tools/serde_schema.py /repo %s/lean/Inkayaku/Gen/LichessSchema.lean' % (VERIF, VERIF, VERIF, VERIF))
     if os.path.exists(meta_p):
         meta.setdefault('detection', {}).update(results)
